@@ -158,7 +158,7 @@ var checks = map[string]*Check{
 	"C09": {ID: "C09", Parts: []Part{{Harness: "core", Func: "C09"}, {Harness: "mcrew", Func: "C09mcrew"}, {Harness: "sio", Func: "C09sio"}}, Category: "model_checking", QuickDeadline: 240, ThoroughDeadline: 1500,
 		Engine: "E1", DesignRef: "6/C09",
 		Technique:   "explicit enumeration of all message histories x all subsets of save points; differential between the in-memory run and the run that persists/reloads the state through JSON at the chosen boundaries",
-		LevelText:   "Every history up to the length bound over a vocabulary of value-producing ECMAScript actions and value-inspecting branches is run twice on the real engine - state kept in memory vs. state marshalled to JSON and re-read at every subset of message boundaries - and the two runs must agree at every message on node, bindings and emitted messages. The mcrew host's own persistence (Storage.WriteState / GetCrew on a bolt file) is exercised the same way on a crew of machines with different bindings, and the sio host's (sio.Stdio's state file, siostd's boot path) on the crew histories of C15 at a smaller depth.",
+		LevelText:   "Every history up to the length bound over a vocabulary of value-producing ECMAScript actions and value-inspecting branches is run twice on the real engine - state kept in memory vs. state marshalled to JSON and re-read at every subset of message boundaries - and the two runs must agree at every message on node, bindings and emitted messages. The mcrew host's own persistence (Storage.WriteState / GetCrew on a bolt file) is exercised the same way on a crew of machines with different bindings, and the sio host's (sio.Stdio's state file, siostd's boot path) on the crew histories of C15 (depth 4 in both tiers).",
 		LevelNote:   "Trusted: encoding/json as the persistence format (what the hosts use). Only the listed producers/inspectors are covered.",
 		Assumptions: commonAssumptions},
 	"C08": {ID: "C08", Parts: []Part{{Harness: "core", Func: "C08"}, {Harness: "mcrew", Func: "C08mcrew"}}, Category: "exploration", QuickDeadline: 240, ThoroughDeadline: 1500,
